@@ -904,7 +904,11 @@ def check_c14(res, tier, replay):
     rlines = ['r%d %s' % (i, strat_line(c[0], c[1], c[2], c[3]).replace('STRAT', 'REPORT', 1) if i not in zero_at else
                           strat_line(c[0], c[1], c[2], c[3]).replace('STRAT', 'REPORTZ', 1) + ' %d' % zero_at[i]) for i, c in enumerate(cases)]
     slines = ['s%d %s' % (i, strat_line(c[0], c[1], c[2], c[3])) for i, c in enumerate(cases)]
-    go = vlib.run_go(rlines + slines)
+    # the report as its consumer sees it: rendered by Report.WriteToWriter (lock-step Value() calls); snapshot dates are local
+    # midnights of zones east and west of UTC on part of the cases
+    zones = {i: rng.choice([0, 0, 32400, -18000, 19800, 46800]) for i in range(len(cases))}
+    wlines = ['w%d %s %d' % (i, strat_line(c[0], c[1], c[2], c[3]).replace('STRAT', 'REPORTW', 1), zones[i]) for i, c in enumerate(cases)]
+    go = vlib.run_go(rlines + slines + wlines)
     bad = 0
     cells = set()
     known = collections.defaultdict(int)
@@ -983,6 +987,13 @@ def check_c14(res, tier, replay):
                             problems.append('indicator column %s is drawn %+d day(s) away from the dates it was computed for' % (cn, -off[0]))
                         else:
                             stats['indicator_columns_unmatched'] += 1
+        wv = go.get('w%d' % i, 'missing')
+        stats['rendered_reports'] += 1
+        if not wv.startswith('ok writer rows='):
+            if name in findings and ('writer-hang' in wv or ' diff ' in wv) and any('has %d values for %d dates' % (len(dates) + 1, len(dates)) in p for p in problems):
+                pass        # consequence of the recorded surplus value in a column of this report
+            else:
+                problems.append('rendered report (WriteToWriter, dates in zone UTC%+ds): %s' % (zones[i], wv[:200]))
         if problems:
             def recorded_shape(p):
                 m = re.match(r'column \S+ has (\d+) values for (\d+) dates', p)
